@@ -67,7 +67,7 @@ def run_instance(inst):
         ref = vstar + (vals["v"][0] - vstar) * R
         return abs(x - ref) > 1e-7 * (1 + abs(ref)), {"real": x, "closed_form": ref}
 
-    def decide(pairs, clause, label, names_pos, concrete=None):
+    def decide(pairs, clause, label, names_pos, concrete=None, model_env=None, pairs_real=None):
         q = smt.Query(f"C15/{label}", flatten_div=True)
         sup = sym.support(*[a for a, _ in pairs], *[b for _, b in pairs], *extra)
         for s_ in sorted(sup):
@@ -80,11 +80,41 @@ def run_instance(inst):
         res["counters"][f"{clause}_{r.status}"] = res["counters"].get(f"{clause}_{r.status}", 0) + 1
         if r.status == "unsat":
             return
+        if r.has_witness and model_env is not None:
+            # replay the solver's model on the real API: per-compartment values from the model, one real step, and the
+            # same comparison (implementation side taken from the real run, reference side evaluated at the model)
+            try:
+                bad, detail = replay_model(pairs_real, r.model, model_env)
+            except Exception as ex:
+                bad, detail = False, {"replay_error": f"{type(ex).__name__}: {str(ex)[:100]}"}
+            if bad:
+                viol(clause, f"{label}: solver model reproduced on the real API: {detail}", detail); return
         if concrete is not None:
             bad, detail = concrete()
             if bad:
                 viol(clause, f"{label}: solver verdict {r.status}; real API vs closed form: {detail}", detail); return
         res["inconclusive"].append({"instance": inst, "query": clause, "reason": r.status})
+
+    def replay_model(pairs_real, model, model_env):
+        """model_env: E.sv-style name -> DAG node giving each per-compartment input in terms of the query's variables;
+        pairs_real: function(real_x list, env) -> list of (implementation value, reference value) floats"""
+        names = sorted(sym.support(*model_env.values()))
+        env = {}
+        for nme in names:
+            v_ = model.get(nme)
+            if v_ is None or v_ != v_: v_ = 1.0
+            # keep the replay inside a range where float64 resolves the difference
+            if nme.rstrip("0123456789") in models.POSITIVE or nme in ("dt", "h", "r", "ra", "cm", "gl"):
+                v_ = min(max(float(v_), 1e-3), 1e4)
+            env[nme] = float(v_)
+        vals = {k: np.asarray([float(sym.evalf(model_env[f"{k}{i}"], env)) for i in range(NC)]) for k in ("r", "L", "ra", "cm", "gl", "el", "v", "I")}
+        dtv = float(env.get("dt", 0.025))
+        x = [float(z) for z in models.real_step(spec, vals, dtv, solver, vs)]
+        worst = 0.0; where = None
+        for (a_, b_) in pairs_real(x, env, vals, dtv):
+            d = abs(a_ - b_) / (1 + abs(b_)) if np.isfinite(a_) else float("inf")
+            if d > worst: worst, where = d, (a_, b_)
+        return worst > 1e-6, {"max_rel_dev": worst, "implementation_vs_reference": where, "inputs": {k: [float(z) for z in v] for k, v in vals.items()}, "dt": dtv}
 
     if what in ("stability_function", "fixed_point"):
         r_, L_, cm_, gl_, el_, v_, I_ = (sv[k][0] for k in ("r", "L", "cm", "gl", "el", "v", "I"))
@@ -96,7 +126,9 @@ def run_instance(inst):
         x = E.xs[0]
         if what == "stability_function":
             ref = vstar + (v_ - vstar) * R
-            decide([(x, ref)], "stability_function", f"compartment/{solver}/{vs}", {"dt"}, concrete_compartment)
+            menv = {f"{k}0": sv[k][0] for k in ("r", "L", "ra", "cm", "gl", "el", "v", "I")}
+            decide([(x, ref)], "stability_function", f"compartment/{solver}/{vs}", {"dt"}, concrete_compartment, model_env=menv,
+                   pairs_real=lambda xr, env, vals, dtv: [(xr[0], float(sym.evalf(ref, dict(env, dt=dtv))))])
             # sensitivity twin: the neighbouring scheme's stability function must be refuted
             other = {"bwd_euler": (lift(1) + z / lift(2)) / (lift(1) - z / lift(2)), "crank_nicolson": lift(1) / (lift(1) - z), "fwd_euler": lift(1) / (lift(1) - z)}[solver]
             q = smt.Query("C15/twin", flatten_div=True)
@@ -142,7 +174,14 @@ def run_instance(inst):
                 pairs.append((field, kappa * (V(xc + h) - vi) / (h * h) + mem))
             else:
                 pairs.append((field, kappa * (V(xc - h) - vi) / (h * h) + mem))
-        decide(pairs, "second_order_consistency", f"cable/n={n}", {"r", "h", "ra", "cm", "gl", "dt"})
+        menv = {k_: sym.lift(v_) for k_, v_ in sub.items()}
+        def cable_real(xr, env, vals, dtv):
+            out = []
+            for i in range(n):
+                vi = float(vals["v"][i])
+                out.append(((xr[i] - vi) / dtv, float(sym.evalf(pairs[i][1], dict(env, dt=dtv)))))
+            return out
+        decide(pairs, "second_order_consistency", f"cable/n={n}", {"r", "h", "ra", "cm", "gl", "dt"}, model_env=menv, pairs_real=cable_real)
     res["counters"].update(E.counters)
     res["stats"] = dict(smt.STATS); res["query_log"] = list(smt.QUERY_LOG)
     res["sample"] = {"instance": inst}
